@@ -2,7 +2,7 @@
    Cnl/Preference.v: preference forms, the READING (lexicographic optimality by priority on the stated quantities), the compile model
    (weak constraints) and their semantics. *)
 Require Import Coq.ZArith.ZArith Coq.Lists.List Coq.Bool.Bool Coq.Strings.String.
-Require Import Cnl2aspV.Gen.Operators Cnl2aspV.Gen.Terminals Cnl2aspV.Cnl.Preference Cnl2aspV.Cnl.PreferenceProofs.
+Require Import Cnl2aspV.Gen.Operators Cnl2aspV.Gen.Terminals Cnl2aspV.Asp.Agg Cnl2aspV.Cnl.Aggregate Cnl2aspV.Cnl.Preference Cnl2aspV.Cnl.PreferenceProofs.
 Import ListNotations.
 Open Scope Z_scope.
 
@@ -23,3 +23,37 @@ Print Assumptions C04_direction_signs.
 Theorem C04_as_much_as_possible_refuted : dir_neg DAsMuch = Some false.
 Proof. exact as_much_refuted. Qed.
 Print Assumptions C04_as_much_as_possible_refuted.
+
+(* for the forms without an aggregate (with variable, with clause, with comparison), on an admissible interpretation, the cost the
+   emitted weak constraint contributes at its level is the stated quantity with the stated direction.
+   PARTIAL: the aggregate forms (PAggAll, PAggPerRoom) are covered by the exhaustive oracle only. *)
+Theorem C04_cost_is_quantity_partial :
+  forall sp I p w, adm sp I -> NoDup (Aggregate.shelf_ids (world sp)) -> simple_form (pf_form p) = true -> pf_dir p <> DAsMuch ->
+    compile_pref p = Some w ->
+    w_level w = rank (pf_prio p) /\ Agg.agg_value Agg.ASum (wc_elements sp I w) = Agg.EFin (directed sp I p).
+Proof. exact simple_cost. Qed.
+Print Assumptions C04_cost_is_quantity_partial.
+
+(* optimality by the emitted weak constraints (gringo/clasp semantics: distinct (weight, tuple) elements summed per level, levels
+   compared from the highest down) is optimality by the READING (lexicographic by priority on the stated quantities), for any
+   number of rooms and shelves, any candidate space, any number of preferences with pairwise distinct priorities.
+   PARTIAL: forms without an aggregate; 'as much as possible' excluded (refuted above). *)
+Theorem C04_optimal_partial :
+  forall sp ws space I, wf_pspec sp -> compile_prefs sp = Some ws -> wc_optimal_in sp ws space I = optimal_in sp space I.
+Proof. exact wc_optimal_is_reading_optimal. Qed.
+Print Assumptions C04_optimal_partial.
+
+(* the hypotheses are satisfiable *)
+Example C04_wf_example :
+  let sp := {| p_rooms := 2; p_shelves := [(1, 3); (2, 3)]; p_lb := None; p_ub := Some 1%nat;
+               p_prefs := [ {| pf_form := PVar Aggregate.KWeight; pf_dir := DMaximized; pf_prio := PHigh |};
+                            {| pf_form := PCmp Aggregate.KShelf "greater than" 1; pf_dir := DAsLittle; pf_prio := PLow |} ] |} in
+  wf_pspec sp /\ exists ws, compile_prefs sp = Some ws.
+Proof.
+  cbn zeta. split.
+  - split; [|split].
+    + repeat constructor; cbn; intuition congruence.
+    + repeat constructor; cbn; intuition congruence.
+    + intros p [<-|[<-|[]]]; split; try reflexivity; discriminate.
+  - eexists. vm_compute. reflexivity.
+Qed.
